@@ -256,7 +256,7 @@ func checkArithmeticPrecedence(r *Run, emit *packages.Package, decls map[string]
 						// the helper's comparison names the precedence function
 						ast.Inspect(fd.Body, func(m ast.Node) bool {
 							if c2, ok := m.(*ast.CallExpr); ok {
-								if g := calleeOf(info, c2); g != nil && g.Pkg() == emit.Types && declOf(g) != nil {
+								if g := calleeOf(info, c2); g != nil && g.Pkg() == emit.Types && declOf(g) != nil && returnsInt(g) {
 									if _, k := typeSwitchInts(emit, decls, declOf(g), tn.Type().(*types.Named)); k || hasTypeSwitch(declOf(g)) {
 										precedenceFn = declOf(g)
 									}
@@ -282,10 +282,14 @@ func checkArithmeticPrecedence(r *Run, emit *packages.Package, decls map[string]
 					why = "the precedence demanded of the right operand is not `<precedence of the partial's operator> + c` with c > 0: a right operand of the same level (a - (b - c)) joins the operators to its left"
 					for _, a := range viaHelper.Args {
 						if be, isBin := ast.Unparen(a).(*ast.BinaryExpr); isBin && be.Op == token.ADD {
-							if tv, has := info.Types[be.Y]; has && tv.Value != nil {
+							constSide, otherSide := be.Y, be.X
+							if tv, has := info.Types[be.X]; has && tv.Value != nil {
+								constSide, otherSide = be.X, be.Y
+							}
+							if tv, has := info.Types[constSide]; has && tv.Value != nil {
 								if c, exact := constantInt64(tv); exact && c > 0 {
 									mentionsOp := false
-									ast.Inspect(be.X, func(m ast.Node) bool {
+									ast.Inspect(otherSide, func(m ast.Node) bool {
 										if sel, isSel := m.(*ast.SelectorExpr); isSel && sel.Sel.Name == "Operator" {
 											mentionsOp = true
 										}
@@ -333,6 +337,15 @@ func checkArithmeticPrecedence(r *Run, emit *packages.Package, decls map[string]
 			r.Fail("C10-R1-precedence", "operand-precedence:"+name, precedenceFn.Pos(), "%s has no case in %s and is classed with the atoms: it is never parenthesised", name, precedenceFn.Name.Name)
 		}
 	}
+}
+
+func returnsInt(fn *types.Func) bool {
+	res := fn.Type().(*types.Signature).Results()
+	if res.Len() != 1 {
+		return false
+	}
+	b, ok := res.At(0).Type().Underlying().(*types.Basic)
+	return ok && b.Info()&types.IsInteger != 0
 }
 
 func hasTypeSwitch(fd *ast.FuncDecl) bool {
@@ -737,6 +750,21 @@ func possibleInts(p *packages.Package, decls map[string]*ast.FuncDecl, fd *ast.F
 	}
 	switch x := e.(type) {
 	case *ast.BinaryExpr:
+		if x.Op == token.ADD {
+			if tv, has := info.Types[x.X]; has && tv.Value != nil {
+				if c, exact := constantInt64(tv); exact {
+					base, ok := possibleInts(p, decls, fd, x.Y, busy, depth+1)
+					if !ok {
+						return nil, false
+					}
+					out := map[int64]bool{}
+					for v := range base {
+						out[v+c] = true
+					}
+					return out, true
+				}
+			}
+		}
 		if x.Op == token.ADD || x.Op == token.SUB {
 			if tv, has := info.Types[x.Y]; has && tv.Value != nil {
 				if c, exact := constantInt64(tv); exact {
